@@ -83,12 +83,26 @@ def gen_image(r, shape, cls):
         f = ii * nf + np.where(ii.astype(int) % 2 == 0, jj, nf - 1 - jj)
     elif cls == "border-peak":
         f = ii + jj        # maximum on the border: everything drains to label 0
+    elif cls == "serpentine":
+        # one ridge that snakes through the frame (every second row, joined at alternating ends) over low valleys: the
+        # ascent path is about half the number of pixels long - much longer than height + width
+        f = r.random(shape) * 0.5
+        t = 1.0
+        rows = list(range(1, ns - 1, 2))
+        for k, i in enumerate(rows):
+            cols = list(range(1, nf - 1)) if k % 2 == 0 else list(range(nf - 2, 0, -1))
+            for j in cols:
+                f[i, j] = t
+                t += 1.0
+            if k + 1 < len(rows):
+                f[i + 1, cols[-1]] = t
+                t += 1.0
     else:
         raise ValueError(cls)
     return tiefree(r, f)
 
 
-CLASSES = ["single-peak", "multi-peak", "noise", "ridge", "spiral-ramp", "multi-peak", "border-peak", "noise"]
+CLASSES = ["single-peak", "multi-peak", "noise", "ridge", "spiral-ramp", "multi-peak", "border-peak", "noise", "serpentine"]
 OFF = [(-1, -1), (0, -1), (1, -1), (-1, 0), (0, 0), (1, 0), (-1, 1), (0, 1), (1, 1)]
 
 # value maps applied to the tie-free rank image (ranks 1..N): the statement is about any image without equal-valued
@@ -246,6 +260,8 @@ def stress_cases(run, seed, mods, ncase, reps, only=None):
         r = rng(seed, "C13", "stress", idx)
         cls = CLASSES[idx % len(CLASSES)]
         shape = shapes[int(r.integers(len(shapes)))]
+        if cls == "serpentine":
+            shape = [(32, 48), (41, 40), (64, 64), (97, 61), (16, 16)][(idx // len(CLASSES)) % 5]
         if idx % 5 == 3:
             # narrow frames: far more threads than columns, pixel counts that the thread count does not divide - the
             # per-thread block bounds of the final walk then fall inside rows and leave a remainder
@@ -254,8 +270,13 @@ def stress_cases(run, seed, mods, ncase, reps, only=None):
         if run.tier == "thorough" and r.random() < 0.05:
             shape = big[int(r.integers(len(big)))]
         vmap = VMAPS[int(r.integers(len(VMAPS)))]
+        if cls == "serpentine" and vmap == "repeat":
+            vmap = "centered"               # "repeat" is not monotone: it would cut the ridge into short pieces
         img = gen_image2(r, shape, cls, vmap)
         want, npk, plen = ref_dense(img)
+        run.setmax("longest_ascent_path_at_least", plen // 2)
+        if plen // 2 > shape[0] + shape[1]:
+            run.count("dense_images_with_ascent_path_longer_than_height_plus_width")
         extra = tuple(int(t) for t in r.integers(1, 65, 2))
         desc = dict(index=idx, source="libgomp", shape=shape, cls=cls, vmap=vmap, extra_threads=extra, tier=run.tier)
         run.count("dense_images_vmap_" + vmap)
@@ -617,7 +638,7 @@ def check(run, replay=None):
         run.nontrivial.update(["replay", "replay2"])
         return
     if run.tier == "quick":
-        stress_cases(run, run.seed, mods, 24, 5)
+        stress_cases(run, run.seed, mods, 27, 5)
         sparse_cases(run, run.seed, mods, 120)
         for idx in range(16):
             scan_case(run, run.seed, idx, mods)
@@ -643,5 +664,6 @@ def check(run, replay=None):
     run.require_counter("lmlabel_frames_compared", 100)
     run.require_counter("lmlabel_smooth_frames", 40)
     run.require_counter("lmlabel_frames_with_1_pixel", 3)
+    run.require_counter("dense_images_with_ascent_path_longer_than_height_plus_width", 2)
     for vm in ("negative", "centered", "scaled"):
         run.require_counter("sparse_images_vmap_" + vm, 3)
